@@ -627,6 +627,9 @@ def _complete_getattr(user_context, instance):
                 continue
             context = func.as_context()
             object_node = arglist.children[0]
+            if object_node.type == 'argument':
+                # `*args`, `key=value` or a generator is not the object.
+                continue
 
             # Make sure it's a param: foo in __getattr__(self, foo)
             name_node = arglist.children[2]
